@@ -116,7 +116,7 @@ class ClenshawInv(Invariant):
         yield 'clenshaw-identity', self._rel(env, env['alphas'], n)
 
 
-@harness('C10', 'jacobi_sum_clenshaw/any-length', variants=['scalar', '1d', '2d'], fuc=['prysm.polynomials.jacobi.jacobi_sum_clenshaw',
+@harness('C10', 'jacobi_sum_clenshaw/any-length', variants=['scalar', '1d', '2d', '1d-buffer'], fuc=['prysm.polynomials.jacobi.jacobi_sum_clenshaw',
                                                                             'prysm.polynomials.jacobi._initialize_alphas'])
 def clenshaw_any(kind):
     """jacobi_sum_clenshaw(s, a, b, x) = sum_{k<len(s)} s_k P_k^(a,b)(x) for coefficient vectors of EVERY length (symbolic length,
@@ -129,11 +129,16 @@ def clenshaw_any(kind):
     assume(And(a > -1, b > -1))
     L = Int('L', 1)
     s = Array('s', (L,))
-    xin, x, dims, ix = _coords(kind)
+    xin, x, dims, ix = _coords(kind.split('-')[0])
     pick = lambda arr: elem(arr, *ix) if ix else arr
+    # '-buffer': the caller supplies the work array (documented `alphas` argument, arbitrary previous content): same sum, returned from
+    # row 0 of that array
+    kw = dict(alphas=Array('buf', (L,) + tuple(dims))) if kind.endswith('-buffer') else {}
     if MODE != 'symbolic':
         _seed_exact_zeros(s)
-        out = call(P + 'jacobi.jacobi_sum_clenshaw', s, a, b, xin)
+        out = call(P + 'jacobi.jacobi_sum_clenshaw', s, a, b, xin, **kw)
+        if kw:
+            check('sum-is-row-0-of-the-buffer', approx(pick(kw['alphas'][0]), pick(out), 1e-12))
         want = 0
         for k in range(L):
             want = want + s[k] * JAC.at(k, a, b, x)
@@ -175,7 +180,7 @@ def clenshaw_any(kind):
         return app('callee_recurrence_a', n), app('callee_recurrence_b', n), app('callee_recurrence_c', n)
     with stub('prysm.polynomials.jacobi', 'recurrence_abc', abc):
         with cut_loops(P + 'jacobi.jacobi_sum_clenshaw', {0: ClenshawInv(S, Pk, lambda k: app('callee_recurrence_c', k), 'it', (dims, ix), L - 1)}) as f:
-            out = f(s, a, b, xin)
+            out = f(s, a, b, xin, **kw)
     if dims:
         check('shape', shape_is(out, *dims))
     check('explicit-sum', approx(pick(out), S(L), 1e-7))
